@@ -24,7 +24,30 @@ def rule_m1(chk: Check, ix: Index):
              and isinstance(n.stmt.value, ast.Call) and ("next" in norm_stmt(n.stmt.value.func))]
     tokvar = fetch[0].stmt.targets[0].id if fetch else None
     appends = []
+    # second idiom: the tokens are collected in a list and the text is joined from their strings afterwards
+    collect = None
+    if textvar:
+        tdefs = [s.value for s in own_nodes(f.node) if isinstance(s, ast.Assign) and len(s.targets) == 1 and norm_stmt(s.targets[0]) == textvar]
+        if len(tdefs) == 1 and isinstance(tdefs[0], ast.Call) and isinstance(tdefs[0].func, ast.Attribute) and tdefs[0].func.attr == "join" \
+                and isinstance(tdefs[0].func.value, ast.Constant) and tdefs[0].func.value.value == "" and len(tdefs[0].args) == 1 \
+                and isinstance(tdefs[0].args[0], (ast.GeneratorExp, ast.ListComp)) and len(tdefs[0].args[0].generators) == 1:
+            comp = tdefs[0].args[0]
+            gen = comp.generators[0]
+            if isinstance(gen.iter, ast.Name) and not gen.ifs and isinstance(gen.target, ast.Name) and \
+                    norm_stmt(comp.elt) == f"{gen.target.id}.string":
+                collect = gen.iter.id
+    if collect and tokvar:
+        for n in cfg.nodes:
+            if n.kind == "stmt" and isinstance(n.stmt, ast.Expr) and norm_stmt(n.stmt) == f"{collect}.append({tokvar})":
+                appends.append(n.id)
+        # nothing else may touch the collection
+        others = [norm_stmt(s) for s in own_nodes(f.node) if isinstance(s, ast.stmt) and not isinstance(s, (ast.If, ast.While, ast.For))
+                  and any(isinstance(x, ast.Name) and x.id == collect and isinstance(x.ctx, (ast.Store, ast.Del)) for x in ast.walk(s))]
+        if len(others) != 1 or not any(others[0].endswith(e) for e in ("= []", "= list()")):
+            appends = []
     for n in cfg.nodes:
+        if collect:
+            break
         if n.kind != "stmt" or not isinstance(n.stmt, (ast.Assign, ast.AugAssign)):
             continue
         tgt = n.stmt.targets[0] if isinstance(n.stmt, ast.Assign) else n.stmt.target
@@ -50,7 +73,9 @@ def rule_m1(chk: Check, ix: Index):
     # start/end of the captured token are the first token's start and the last token's end
     src = [norm_stmt(s) for s in ast.walk(f.node) if isinstance(s, ast.stmt)]
     chk.count("M1-must-append")
-    chk.require("end = tok.end" in src and "start = tok.start" in src and
+    span_ok = ("end = tok.end" in src and "start = tok.start" in src) or \
+        (collect is not None and f"start = {collect}[0].start" in src and f"end = {collect}[-1].end" in src)
+    chk.require(span_ok and
                 any(s.startswith("return TokenInfo(Token.MACRO_PARAM, string, start, end, line)") for s in src),
                 "M1-must-append", "consume_macro_params:span", f.where,
                 "the raw argument token must span from the first captured token's start to the last one's end")
